@@ -80,6 +80,21 @@ static void roundtrip(polyseed_data* s, const pv_mseed* m, pv_mlang* L, unsigned
         }
     } else { ok = false; pv_violation("C01/model-rejects-own-phrase", "model decode of '%s' -> %s (harness or library phrase problem)", pv_esc(in), pv_status_name(md.status)); }
     if (st == POLYSEED_OK) pv_api_free(a);
+    /* "... or any other error": when the allocator refuses the request the decoders make for the seed object, the one error
+     * that may come back for this valid phrase is the memory status (a sample of the round trips) */
+    if (ok && g_rng2 && pv_randn(g_rng2, 8) == 0) {
+        for (int e = 0; e < 2; ++e) {
+            pv_w->fail_countdown = 1; a = NULL;
+            int sf = e ? pv_api_decode_explicit(in, coin, L->lib, &a) : pv_api_decode(in, coin, NULL, &a);
+            bool refused = pv_w->alloc_failed_in_call > 0; pv_w->fail_countdown = 0;
+            PV_COUNT("evaluations", 1);
+            int want = refused ? POLYSEED_ERR_MEMORY : (e ? POLYSEED_OK : md.status);
+            if (!e && md.status == POLYSEED_ERR_MULT_LANG) want = POLYSEED_ERR_MULT_LANG;
+            if (sf != want) { ok = false; pv_violation("C01/other-error-when-the-allocator-fails", "[%s] %s coin %u: %s with a refused allocation -> %s, expected %s", how, L->name_en, coin, e ? "decode_explicit" : "decode", pv_status_name(sf), pv_status_name(want)); }
+            else PV_COUNT("roundtrip.decodes_with_failing_allocator", 1);
+            if (sf == POLYSEED_OK) pv_api_free(a);
+        }
+    }
     if (ok) { PV_DISTINCT("nontrivial", pv_mix(pv_mix(pv_mseed_hash(m), coin), pv_hash_str(L->key))); pv_countf(1, "roundtrip.ok.%s", L->key); pv_countf(1, "roundtrip.how.%s", how); }
     free(in);
 }
